@@ -156,6 +156,10 @@ func (p c11) check(rc Recipe, st State, rep *runner.Reporter) {
 				viol := func(sig, what string) {
 					rep.Violation(&runner.Witness{Sig: sig, What: what, Unit: unitJSON, Files: filesOf(ws), Query: q.String()})
 				}
+				// the lookup is asked at a byte of a collected origin: it must find that origin
+				if _, notFound := r.Err.(*reference.NoOriginFound); notFound {
+					viol("LOOKUP origin-not-found-at-its-own-position kind="+kind, fmt.Sprintf("go-to-definition at byte %d of the collected origin %s (%s) answers that there is no origin", b, addr, fmtRange(or)))
+				}
 				for _, rt := range rts {
 					if rt.OriginRange != or {
 						continue
